@@ -1,7 +1,9 @@
 (* Proofs for property C02 (see Props/Properties_C02.v for the statements' meaning). *)
-From Coq Require Import NArith ZArith List Bool Lia.
-From F8 Require Import Codec.Bytes Codec.Meta Codec.Extract Codec.Decode Codec.Encode Codec.Render
-                       Codec.Example C02.Spec_C02.
+From Coq Require Import NArith ZArith List Bool Lia Arith.
+From F8 Require Import Codec.Bytes Codec.Meta Codec.Extract Codec.Decode Codec.Encode Codec.Render Codec.Example
+                       C07.Chksum C07.Spec_C07 C07.ChksumProofs
+                       C02.Spec_C02 C02.WfC02 C02.DigitsProofs C02.TokenProofs C02.TreeProofs C02.StructProofs
+                       C02.AuxProofs C02.RenderProofs.
 Import ListNotations.
 Local Open Scope N_scope.
 
@@ -11,16 +13,334 @@ Definition enc_bytes (c : ctx) (m : message) : list N :=
 Definition enc_twice (c : ctx) (m : message) : list N :=
   match msg_encode c m with Ok (_, m') => enc_bytes c m' | _ => [] end.
 
-Lemma c02_second_encode_refuted_lemma :
-  exists c m, wire_ok c (enc_bytes c m) = true /\ wire_ok c (enc_twice c m) = false.
-Proof. exists ex_ctx, ex_hb. split; vm_compute; reflexivity. Qed.
+Ltac split_ands :=
+  repeat match goal with H : _ && _ = true |- _ => apply andb_prop in H; destruct H end.
 
-Lemma c02_no_delimiter_refuted_lemma :
-  exists c m b, msg_encode c m = Ok (b, snd (match msg_encode c m with Ok r => r | _ => ([], m) end))
-                /\ wire_ok c b = false.
+Lemma ftype_of_is_ty c f ty d : is_ty c f ty = true -> ftype_of c f d = ty.
+Proof. unfold is_ty, ftype_of. destruct (find_be (c_fields c) f); [|discriminate]. intros H. apply N.eqb_eq in H. assumption. Qed.
+Lemma part_type_is_ty c m f ty : is_ty c f ty = true -> part_type c m f = ty.
+Proof. unfold part_type. apply ftype_of_is_ty. Qed.
+Lemma part_type_int c m f : is_int_field c f = true -> is_int_type (part_type c m f) = true.
+Proof. unfold is_int_field, part_type, ftype_of. destruct (find_be (c_fields c) f); [|discriminate]. trivial. Qed.
+Lemma fields_clear m f : mb_fields (clear_suppress m f) = mb_fields m.
+Proof. destruct m. reflexivity. Qed.
+
+Lemma P_app a b : P (a ++ b) = P a ++ P b.
+Proof. apply flat_map_app. Qed.
+
+Lemma wf_nodes_snoc g : forall a last x,
+  wf_nodes g last a = true -> (last_key last a <? n_key x) = true -> wf_node g x = true ->
+  wf_nodes g last (a ++ [x]) = true.
 Proof.
-  exists ex_ctx, ex_list_nofirst. eexists. split; [vm_compute; reflexivity | vm_compute; reflexivity].
+  induction a as [|y a IH]; intros last x Ha Hk Hx; cbn [app wf_nodes last_key] in *.
+  - rewrite Hk, Hx. reflexivity.
+  - apply andb_prop in Ha. destruct Ha as [Ha Hr]. rewrite Ha. cbn [andb]. apply IH; assumption.
 Qed.
 
-Lemma c02_nonvacuous_lemma : wire_ok ex_ctx (enc_bytes ex_ctx ex_list) = true.
-Proof. vm_compute. reflexivity. Qed.
+Lemma last_key_snoc : forall a last x, last_key last (a ++ [x]) = n_key x.
+Proof. induction a as [|y a IH]; intros last x; cbn [app last_key]; [reflexivity|apply IH]. Qed.
+
+Lemma plain_node g f p v : plain_at g f p = true -> val_ok v = true -> wf_node g (TN p f v []) = true.
+Proof.
+  unfold plain_at. intros H Hv. rewrite wf_node_unfold. destruct (find_trait (g_traits g) f) as [tr|]; [|discriminate].
+  apply andb_prop in H. destruct H as [Hp Hg]. rewrite Hp, Hv. cbn [andb].
+  destruct (t_group tr); [discriminate|reflexivity].
+Qed.
+
+Lemma head_in_app_l (a b : list (N * list N)) outer : a <> [] -> head_in outer a -> head_in outer (a ++ b).
+Proof. destruct a as [|[f v] a]; [congruence|]. trivial. Qed.
+
+Lemma head_in_P g last ns outer : wf_nodes g last ns = true -> ns <> [] ->
+  (forall x, In x (tags g) -> In x outer) -> head_in outer (P ns).
+Proof.
+  destruct ns as [|x ns]; [congruence|]. intros H _ Hsub. pose proof (node_tag_in g last x ns H) as Hin.
+  destruct x as [k f rv els]. rewrite P_cons. cbn [npairs app head_in]. apply Hsub. exact Hin.
+Qed.
+
+Lemma disj_sym a b : disj a b -> disj b a.
+Proof. intros H x Hb Ha. exact (H x Ha Hb). Qed.
+Lemma disj_app_r a b c : disj a b -> disj a c -> disj a (b ++ c).
+Proof. intros H1 H2 x Ha Hbc. apply in_app_or in Hbc. destruct Hbc; [exact (H1 x Ha H)|exact (H2 x Ha H)]. Qed.
+
+Lemma rest_ok_of_head g outer lastf rp : head_in outer rp -> rest_ok g outer lastf rp.
+Proof. destruct rp as [|[f v] rp]; [trivial|]. intros H. left. exact H. Qed.
+
+(* ---------------------------------------------------------------- shape of the output *)
+Definition all_pairs (c : ctx) (hn bn tn : list tnode) (L : N) (csv : list N) : list (N * list N) :=
+  (8, c_begin c) :: (9, itoa_N L) :: (P hn ++ P bn ++ P tn) ++ [(10, csv)].
+
+Lemma encode_shape c m hn bn tn md t10 :
+  render_ok c ->
+  tree_of c (set_value (m_hdr m) Common_MsgType (m_type m)) = Some hn ->
+  tree_of c (m_body m) = Some bn -> tree_of c (m_trl m) = Some tn ->
+  find_trait (g_traits (c_trailer c)) 10 = Some t10 -> msg_def c hn = Some md ->
+  wf_ctx c md = true ->
+  wf_nodes (c_header c) 2 hn = true -> wf_nodes (md_meta md) 0 bn = true -> wf_nodes (c_trailer c) 0 tn = true ->
+  has_field (m_trl m) 10 = true ->
+  match map_find 8 (mb_fields (set_value (m_hdr m) Common_MsgType (m_type m))),
+        map_find 9 (mb_fields (set_value (m_hdr m) Common_MsgType (m_type m))) with
+  | Some bsv, Some _ => list_eqb (c_render c ft_string bsv) (c_begin c)
+  | _, _ => false
+  end = true ->
+  mb_unknown (set_value (m_hdr m) Common_MsgType (m_type m)) = [] -> mb_unknown (m_body m) = [] -> mb_unknown (m_trl m) = [] ->
+  encoded_len c hn bn tn < 10000000 ->
+  exists csv m',
+    msg_encode c m = Ok (flat_map pbytes (all_pairs c hn bn tn (encoded_len c hn bn tn) csv), m') /\
+    all_digits csv /\ lenN csv = 3 /\
+    dec_val csv 0 = Some (bytesumN (flat_map pbytes ((8, c_begin c) :: (9, itoa_N (encoded_len c hn bn tn)) :: P hn ++ P bn ++ P tn))).
+Proof.
+  intros [Rint Rstr] Eh Eb Et E10 Emd Hctx HwH HwB HwT Hh10 H89 Uh Ub Ut Hlen.
+  set (h0 := set_value (m_hdr m) Common_MsgType (m_type m)) in *.
+  set (L := encoded_len c hn bn tn) in *.
+  unfold wf_ctx in Hctx. split_ands.
+  destruct (map_find 8 (mb_fields h0)) as [bsv|] eqn:E8; [|discriminate].
+  destruct (map_find 9 (mb_fields h0)) as [v9|] eqn:E9; [|discriminate].
+  apply list_eqb_eq in H89.
+  assert (T8 : is_ty c 8 ft_string = true) by assumption.
+  assert (T9 : is_int_field c 9 = true) by assumption.
+  assert (T10 : is_ty c 10 ft_string = true) by assumption.
+  assert (Hbody : flat_map nbytes hn ++ flat_map nbytes bn ++ flat_map nbytes tn = flat_map pbytes (P hn ++ P bn ++ P tn)).
+  { rewrite !flat_map_app, !nodes_bytes_pairs. reflexivity. }
+  assert (HL : lenN (flat_map pbytes (P hn ++ P bn ++ P tn)) = L).
+  { rewrite <- Hbody, !lenN_app. unfold L, encoded_len. lia. }
+  (* all values are fine *)
+  assert (Hpv : Forall pv (P hn ++ P bn ++ P tn)).
+  { apply Forall_app. split; [eapply wf_pairs; [apply le_n|exact HwH]|].
+    apply Forall_app. split; [eapply wf_pairs; [apply le_n|exact HwB]|eapply wf_pairs; [apply le_n|exact HwT]]. }
+  assert (Hbeg : val_ok (c_begin c) = true).
+  { unfold val_ok. rewrite forallb_forall. intros x Hx.
+    match goal with H : forallb (fun b => b <? 256) (c_begin c) = true |- _ => rewrite forallb_forall in H; rewrite (H x Hx) end.
+    match goal with H : forallb (fun b => negb (b =? SOH)) (c_begin c) = true |- _ => rewrite forallb_forall in H; rewrite (H x Hx) end.
+    reflexivity. }
+  set (prep := [(8, c_begin c); (9, itoa_N L)]).
+  assert (Hpre : Forall pv prep).
+  { constructor; [exact Hbeg|]. constructor; [apply digits_val_ok, itoa_digits|constructor]. }
+  set (mem := flat_map pbytes (prep ++ P hn ++ P bn ++ P tn)).
+  assert (Hsmall : small_bytes mem) by (apply pairs_small, Forall_app; split; assumption).
+  (* the checksum *)
+  pose proof (c07_nolen_lemma (map Z.of_N mem) (Z.of_N (lenN mem)) 0 (small_bytes_ok _ Hsmall)) as Hck.
+  assert (Hlm : Z.of_N (lenN mem) = Z.of_nat (length (map Z.of_N mem))) by (rewrite map_length, lenN_length; lia).
+  specialize (Hck ltac:(lia) ltac:(lia)).
+  assert (H64 : (Z.of_N (lenN mem) < W64)%Z).
+  { unfold mem. rewrite flat_map_app, lenN_app, HL. unfold prep. cbn [flat_map]. rewrite app_nil_r, lenN_app.
+    unfold pbytes. cbn [fst snd]. rewrite !lenN_app. cbn [lenN]. rewrite !lenN_app. cbn [lenN].
+    rewrite (itoa_small 8), (itoa_small 9) by lia. cbn [lenN]. rewrite len_digits_itoa by assumption.
+    assert (lenN (c_begin c) < 1000) by (apply N.ltb_lt; assumption). unfold W64. unfold len_digits. repeat destruct (_ <? _); lia. }
+  specialize (Hck H64).
+  destruct (calc_chksum (map Z.of_N mem) (Z.of_N (lenN mem)) 0 (-1)) as [[ck hull]|] eqn:Eck; [|discriminate].
+  cbn [c07_ok] in Hck. apply andb_prop in Hck. destruct Hck as [Hck _]. apply Z.eqb_eq in Hck.
+  assert (Hckv : Z.to_N ck = bytesumN mem).
+  { rewrite Hck. unfold c07_spec, bytesumN, range_len, sub. cbn [Z.eqb]. rewrite Z.sub_0_r. cbn [Z.to_nat skipn].
+    cbn [Pos.eqb]. rewrite Hlm, Nat2Z.id, firstn_all. reflexivity. }
+  assert (Hck256 : Z.to_N ck < 256).
+  { rewrite Hckv. unfold bytesumN. pose proof (Z.mod_pos_bound (bytesum (map Z.of_N mem)) 256 ltac:(lia)). lia. }
+  destruct (fmt_chksum_spec (Z.to_N ck) Hck256) as (Hcd & Hcl & Hcv).
+  exists (fmt_chksum (Z.to_N ck)). eexists. split; [|split; [exact Hcd|split; [exact Hcl|rewrite Hcv, Hckv; reflexivity]]].
+  unfold msg_encode, msg_encode_parts. fold h0.
+  rewrite (mb_encode_tree c h0 hn Eh), (mb_encode_tree c _ bn Eb), (mb_encode_tree c _ tn Et).
+  rewrite Uh, Ub, Ut, !app_nil_r. cbn [bind].
+  change Common_BeginString with 8. change Common_BodyLength with 9. change Common_CheckSum with 10.
+  rewrite E8. rewrite fields_clear, E9.
+  unfold has_field in Hh10. destruct (map_find 10 (mb_fields (m_trl m))) as [v10|] eqn:Ev10; [|discriminate].
+  rewrite Hbody. rewrite HL.
+  rewrite (part_type_is_ty c _ 8 ft_string T8).
+  assert (Hbl : itoa_Z (to_i32 (Z.of_N L)) = itoa_N L).
+  { unfold to_i32, two32, two31. rewrite Z.mod_small by lia.
+    replace (Z.of_N L <? 2147483648)%Z with true by (symmetry; apply Z.ltb_lt; lia).
+    unfold itoa_Z. replace (Z.of_N L <? 0)%Z with false by (symmetry; apply Z.ltb_ge; lia). rewrite N2Z.id. reflexivity. }
+  rewrite Hbl.
+  unfold field_bytes. rewrite H89.
+  rewrite (Rint _ L (part_type_int c _ 9 T9)) by lia.
+  set (pre := (itoa_N 8 ++ EQC :: c_begin c ++ [SOH]) ++ itoa_N 9 ++ EQC :: itoa_N L ++ [SOH]).
+  assert (Hprelen : lenN pre = preamble_sz c + len_digits L).
+  { unfold pre, preamble_sz. rewrite !lenN_app. cbn [lenN]. rewrite !lenN_app. cbn [lenN].
+    rewrite (itoa_small 8), (itoa_small 9) by lia. cbn [lenN]. rewrite len_digits_itoa by assumption. lia. }
+  rewrite Hprelen, N.eqb_refl. cbn [negb].
+  assert (Hmem : pre ++ flat_map pbytes (P hn ++ P bn ++ P tn) = mem).
+  { unfold mem, prep, pre. cbn [app flat_map].
+    change (pbytes (8, c_begin c)) with (itoa_N 8 ++ EQC :: c_begin c ++ [SOH]).
+    change (pbytes (9, itoa_N L)) with (itoa_N 9 ++ EQC :: itoa_N L ++ [SOH]). rewrite <- !app_assoc. reflexivity. }
+  rewrite Hmem, Eck. cbn [bind].
+  rewrite (part_type_is_ty c _ 10 ft_string T10), Rstr.
+  f_equal. f_equal. unfold all_pairs. cbn [flat_map].
+  rewrite (flat_map_app pbytes (P hn ++ P bn ++ P tn) [(10, fmt_chksum (Z.to_N ck))]). cbn [flat_map]. rewrite app_nil_r.
+  unfold pre, pbytes. cbn [fst snd]. rewrite <- !app_assoc. reflexivity.
+Qed.
+
+(* ---------------------------------------------------------------- the validator accepts it *)
+Lemma msg_def_shape c hn md : msg_def c hn = Some md ->
+  exists rv35 hn', hn = TN 3 35 rv35 [] :: hn' /\ find_msg (c_msgs c) rv35 = Some md.
+Proof.
+  unfold msg_def. destruct hn as [|[k f rv els] hn']; [discriminate|].
+  destruct ((k =? 3) && (f =? 35) && match els with [] => true | _ => false end) eqn:E; [|discriminate].
+  apply andb_prop in E. destruct E as [E E3]. apply andb_prop in E. destruct E as [E1 E2].
+  apply N.eqb_eq in E1, E2. subst. destruct els; [|discriminate].
+  intros H. exists rv, hn'. split; [reflexivity|assumption].
+Qed.
+
+Lemma head_in_P_app g last ns outer rest : wf_nodes g last ns = true -> ns <> [] ->
+  (forall x, In x (tags g) -> In x outer) -> head_in outer (P ns ++ rest).
+Proof.
+  destruct ns as [|x ns]; [congruence|]. intros H _ Hsub. pose proof (node_tag_in g last x ns H) as Hin.
+  destruct x as [k f rv els]. rewrite P_cons. cbn [npairs app head_in]. apply Hsub. exact Hin.
+Qed.
+
+Lemma wire_ok_shape c hn bn tn md t10 csv :
+  find_trait (g_traits (c_trailer c)) 10 = Some t10 -> msg_def c hn = Some md ->
+  wf_ctx c md = true ->
+  wf_nodes (c_header c) 2 hn = true -> wf_nodes (md_meta md) 0 bn = true -> wf_nodes (c_trailer c) 0 tn = true ->
+  last_key 0 tn < t_pos t10 ->
+  encoded_len c hn bn tn < 10000000 ->
+  all_digits csv -> lenN csv = 3 ->
+  dec_val csv 0 = Some (bytesumN (flat_map pbytes ((8, c_begin c) :: (9, itoa_N (encoded_len c hn bn tn)) :: P hn ++ P bn ++ P tn))) ->
+  wire_ok c (flat_map pbytes (all_pairs c hn bn tn (encoded_len c hn bn tn) csv)) = true.
+Proof.
+  intros E10 Emd Hctx HwH HwB HwT Hlk Hlen Hcd Hcl Hcv.
+  set (L := encoded_len c hn bn tn) in *.
+  destruct (msg_def_shape c hn md Emd) as (rv35 & hn' & -> & Hfm).
+  unfold wf_ctx in Hctx. split_ands.
+  (* values *)
+  assert (Hbeg : val_ok (c_begin c) = true).
+  { unfold val_ok. rewrite forallb_forall. intros x Hx.
+    match goal with H : forallb (fun b => b <? 256) (c_begin c) = true |- _ => rewrite forallb_forall in H; rewrite (H x Hx) end.
+    match goal with H : forallb (fun b => negb (b =? SOH)) (c_begin c) = true |- _ => rewrite forallb_forall in H; rewrite (H x Hx) end.
+    reflexivity. }
+  set (mid := P (TN 3 35 rv35 [] :: hn') ++ P bn ++ P tn) in *.
+  assert (Hpv : Forall pv mid).
+  { apply Forall_app. split; [eapply wf_pairs; [apply le_n|exact HwH]|].
+    apply Forall_app. split; [eapply wf_pairs; [apply le_n|exact HwB]|eapply wf_pairs; [apply le_n|exact HwT]]. }
+  assert (Hall : Forall pv (all_pairs c (TN 3 35 rv35 [] :: hn') bn tn L csv)).
+  { unfold all_pairs. constructor; [exact Hbeg|]. constructor; [apply digits_val_ok, itoa_digits|].
+    apply Forall_app. split; [exact Hpv|]. constructor; [apply digits_val_ok; exact Hcd|constructor]. }
+  unfold wire_ok, tokenize. rewrite tokenize_flat.
+  2:{ eapply Forall_impl; [|exact Hall]. intros p Hp. apply val_ok_no_soh. exact Hp. }
+  apply andb_true_intro. split.
+  - (* framing *)
+    set (front := (8, c_begin c) :: (9, itoa_N L) :: mid).
+    assert (Heq : all_pairs c (TN 3 35 rv35 [] :: hn') bn tn L csv = front ++ [(10, csv)]) by reflexivity.
+    assert (HL : lenN (flat_map pbytes mid) = L).
+    { unfold mid. rewrite !flat_map_app, <- !nodes_bytes_pairs, !lenN_app. unfold L, encoded_len. lia. }
+    assert (Hfront : lenN (flat_map pbytes front) = lenN (pbytes (8, c_begin c)) + lenN (pbytes (9, itoa_N L)) + L).
+    { unfold front. cbn [flat_map]. rewrite !lenN_app, HL. lia. }
+    assert (Hbytes : firstN (lenN (flat_map pbytes front)) (flat_map pbytes (all_pairs c (TN 3 35 rv35 [] :: hn') bn tn L csv))
+                     = flat_map pbytes front).
+    { rewrite Heq, flat_map_app. apply firstN_app_exact. }
+    pose proof (last_tok_offs front (10, csv) 0) as Hlast. rewrite <- Heq in Hlast.
+    set (bytes := flat_map pbytes (all_pairs c (TN 3 35 rv35 [] :: hn') bn tn L csv)) in *.
+    assert (Heq2 : all_pairs c (TN 3 35 rv35 [] :: hn') bn tn L csv =
+                   (8, c_begin c) :: (9, itoa_N L) :: (35, rv35) :: (P hn' ++ P bn ++ P tn) ++ [(10, csv)]) by reflexivity.
+    unfold frame_ok. rewrite Heq2 in Hlast |- *. rewrite !offs_cons in Hlast |- *. cbv iota. rewrite Hlast.
+    cbn [fst snd k_tag k_val k_start k_end N.eqb Pos.eqb andb].
+    rewrite list_eqb_refl. cbn [andb]. rewrite decimal_itoa. rewrite Hfront.
+    replace (0 + lenN (pbytes (8, c_begin c)) + lenN (pbytes (9, itoa_N L)) <=?
+             0 + (lenN (pbytes (8, c_begin c)) + lenN (pbytes (9, itoa_N L)) + L)) with true by (symmetry; apply N.leb_le; lia).
+    replace (L =? 0 + (lenN (pbytes (8, c_begin c)) + lenN (pbytes (9, itoa_N L)) + L) -
+                  (0 + lenN (pbytes (8, c_begin c)) + lenN (pbytes (9, itoa_N L)))) with true by (symmetry; apply N.eqb_eq; lia).
+    cbn [andb]. rewrite Hcl. cbn [N.eqb Pos.eqb andb]. rewrite Hcv.
+    apply N.eqb_eq. f_equal. rewrite N.add_0_l, <- Hfront, Hbytes. reflexivity.
+  - (* structure *)
+    set (hfull := TN 1 8 (c_begin c) [] :: TN 2 9 (itoa_N L) [] :: TN 3 35 rv35 [] :: hn').
+    set (tfull := tn ++ [TN (t_pos t10) 10 csv []]).
+    assert (Hsplit : all_pairs c (TN 3 35 rv35 [] :: hn') bn tn L csv = P hfull ++ P bn ++ P tfull).
+    { unfold all_pairs, hfull, tfull. rewrite P_app. cbn [flat_map npairs app]. rewrite ?app_nil_r.
+      rewrite <- !app_assoc. reflexivity. }
+    assert (HwHf : wf_nodes (c_header c) 0 hfull = true).
+    { assert (P8 : plain_at (c_header c) 8 1 = true) by assumption.
+      assert (P9 : plain_at (c_header c) 9 2 = true) by assumption.
+      unfold hfull. cbn [wf_nodes n_key]. rewrite (plain_node _ 8 1 _ P8 Hbeg).
+      rewrite (plain_node _ 9 2 (itoa_N L) P9 (digits_val_ok _ (itoa_digits L))).
+      cbn [N.ltb N.compare Pos.compare Pos.compare_cont andb]. exact HwH. }
+    assert (Hw10 : wf_node (c_trailer c) (TN (t_pos t10) 10 csv []) = true).
+    { rewrite wf_node_unfold, E10. rewrite N.eqb_refl, (digits_val_ok _ Hcd). cbn [andb].
+      match goal with H : match find_trait (g_traits (c_trailer c)) 10 with _ => _ end = true |- _ => rewrite E10 in H; apply andb_prop in H; destruct H as [Hng _] end.
+      destruct (t_group t10); [discriminate|reflexivity]. }
+    assert (HwTf : wf_nodes (c_trailer c) 0 tfull = true).
+    { unfold tfull. apply wf_nodes_snoc; [exact HwT|apply N.ltb_lt; exact Hlk|exact Hw10]. }
+    assert (Htne : tfull <> []) by (unfold tfull; intros Hc; apply app_eq_nil in Hc; destruct Hc; discriminate).
+    unfold struct_ok.
+    assert (Heq2 : all_pairs c (TN 3 35 rv35 [] :: hn') bn tn L csv =
+                   (8, c_begin c) :: (9, itoa_N L) :: (35, rv35) :: (P hn' ++ P bn ++ P tn) ++ [(10, csv)]) by reflexivity.
+    remember (offs 0 (all_pairs c (TN 3 35 rv35 [] :: hn') bn tn L csv)) as ts eqn:Ets.
+    assert (Hlen_ts : length ts = (length (P hfull) + length (P bn) + length (P tfull))%nat).
+    { rewrite Ets, offs_length, Hsplit, !app_length. lia. }
+    assert (Hts3 : exists t8 t9 t35 l1, ts = t8 :: t9 :: t35 :: l1 /\ k_val t35 = rv35).
+    { rewrite Ets, Heq2, !offs_cons. do 4 eexists. split; reflexivity. }
+    destruct Hts3 as (t8 & t9 & t35 & l1 & Hts3 & Hv35). rewrite Hts3. rewrite Hv35, Hfm. rewrite <- Hts3.
+    set (fuel := S (S (S (length ts + length ts + length ts)))).
+    (* header *)
+    assert (WmH : wf_meta (tags (md_meta md) ++ tags (c_trailer c)) (c_header c) = true) by assumption.
+    assert (WmB : wf_meta (tags (c_header c) ++ tags (c_trailer c)) (md_meta md) = true) by assumption.
+    assert (WmT : wf_meta (tags (c_header c) ++ tags (md_meta md)) (c_trailer c) = true) by assumption.
+    assert (bHB : disjN (tags (c_header c)) (tags (md_meta md)) = true) by assumption.
+    assert (bHT : disjN (tags (c_header c)) (tags (c_trailer c)) = true) by assumption.
+    assert (bBT : disjN (tags (md_meta md)) (tags (c_trailer c)) = true) by assumption.
+    assert (DHB : disj (tags (c_header c)) (tags (md_meta md))) by exact (disjN_spec _ _ bHB).
+    assert (DHT : disj (tags (c_header c)) (tags (c_trailer c))) by exact (disjN_spec _ _ bHT).
+    assert (DBT : disj (tags (md_meta md)) (tags (c_trailer c))) by exact (disjN_spec _ _ bBT).
+    assert (HheadT : forall outer, (forall x, In x (tags (c_trailer c)) -> In x outer) -> head_in outer (P tfull)).
+    { intros outer Hsub. rewrite <- (app_nil_r (P tfull)). apply (head_in_P_app (c_trailer c) 0 tfull); [exact HwTf|exact Htne|exact Hsub]. }
+    assert (RH : rest_ok (c_header c) (tags (md_meta md) ++ tags (c_trailer c)) (last_key 0 hfull) (P bn ++ P tfull)).
+    { apply rest_ok_of_head. destruct bn as [|xb bn'].
+      - cbn [flat_map app]. apply HheadT. intros x Hx. apply in_or_app. right. exact Hx.
+      - apply (head_in_P_app (md_meta md) 0 (xb :: bn')); [exact HwB|discriminate|].
+        intros x Hx. apply in_or_app. left. exact Hx. }
+    assert (RB : rest_ok (md_meta md) (tags (c_header c) ++ tags (c_trailer c)) (last_key 0 bn) (P tfull)).
+    { apply rest_ok_of_head. apply HheadT. intros x Hx. apply in_or_app. right. exact Hx. }
+    assert (FH : (2 * length (P hfull) + 1 <= fuel)%nat) by (unfold fuel; lia).
+    assert (FB : (2 * length (P bn) + 1 <= fuel)%nat) by (unfold fuel; lia).
+    assert (FT : (2 * length (P tfull) + 1 <= fuel)%nat) by (unfold fuel; lia).
+    destruct (part_ok_nodes (length (P hfull)) (c_header c) (tags (md_meta md) ++ tags (c_trailer c)) hfull 0
+                (P bn ++ P tfull) 0 fuel (le_n _) WmH (disj_app_r _ _ _ DHB DHT) HwHf RH FH) as [off1 Hp1].
+    rewrite Ets, Hsplit, Hp1.
+    destruct (part_ok_nodes (length (P bn)) (md_meta md) (tags (c_header c) ++ tags (c_trailer c)) bn 0
+                (P tfull) off1 fuel (le_n _) WmB (disj_app_r _ _ _ (disj_sym _ _ DHB) DBT) HwB RB FB) as [off2 Hp2].
+    rewrite Hp2.
+    destruct (part_ok_nodes (length (P tfull)) (c_trailer c) (tags (c_header c) ++ tags (md_meta md)) tfull 0
+                [] off2 fuel (le_n _) WmT (disj_app_r _ _ _ (disj_sym _ _ DHT) (disj_sym _ _ DBT)) HwTf I FT) as [off3 Hp3].
+    rewrite app_nil_r in Hp3. rewrite Hp3. reflexivity.
+Qed.
+
+(* ---------------------------------------------------------------- the theorems *)
+Theorem c02_wellformed_lemma c m :
+  render_ok c -> wf_msg c m = true -> fresh m = true ->
+  exists b m', msg_encode c m = Ok (b, m') /\ wire_ok c b = true.
+Proof.
+  intros HR Hwf _. unfold wf_msg in Hwf.
+  destruct (tree_of c (set_value (m_hdr m) Common_MsgType (m_type m))) as [hn|] eqn:Eh; [|discriminate].
+  destruct (tree_of c (m_body m)) as [bn|] eqn:Eb; [|discriminate].
+  destruct (tree_of c (m_trl m)) as [tn|] eqn:Et; [|discriminate].
+  destruct (find_trait (g_traits (c_trailer c)) 10) as [t10|] eqn:E10; [|discriminate].
+  destruct (msg_def c hn) as [md|] eqn:Emd; [|discriminate].
+  apply andb_prop in Hwf. destruct Hwf as [Hwf Hlen]. apply andb_prop in Hwf. destruct Hwf as [Hwf Hunk].
+  apply andb_prop in Hwf. destruct Hwf as [Hwf H89]. apply andb_prop in Hwf. destruct Hwf as [Hwf Hh10].
+  apply andb_prop in Hwf. destruct Hwf as [Hwf Hlk]. apply andb_prop in Hwf. destruct Hwf as [Hwf HwT].
+  apply andb_prop in Hwf. destruct Hwf as [Hwf HwB]. apply andb_prop in Hwf. destruct Hwf as [Hctx HwH].
+  apply N.ltb_lt in Hlen, Hlk.
+  destruct (mb_unknown (set_value (m_hdr m) Common_MsgType (m_type m))) eqn:Uh; [|discriminate].
+  destruct (mb_unknown (m_body m)) eqn:Ub; [|discriminate].
+  destruct (mb_unknown (m_trl m)) eqn:Ut; [|discriminate].
+  destruct (encode_shape c m hn bn tn md t10 HR Eh Eb Et E10 Emd Hctx HwH HwB HwT Hh10 H89 Uh Ub Ut Hlen)
+    as (csv & m' & Henc & Hcd & Hcl & Hcv).
+  exists (flat_map pbytes (all_pairs c hn bn tn (encoded_len c hn bn tn) csv)), m'. split; [exact Henc|].
+  apply (wire_ok_shape c hn bn tn md t10 csv E10 Emd Hctx HwH HwB HwT Hlk Hlen Hcd Hcl Hcv).
+Qed.
+
+Lemma c02_second_encode_refuted_lemma :
+  exists c m, render_ok c /\ wf_msg c m = true /\ fresh m = true /\
+              wire_ok c (enc_bytes c m) = true /\ wire_ok c (enc_twice c m) = false.
+Proof.
+  exists ex_ctx, ex_hb. split; [apply render_default_ok; reflexivity|].
+  repeat split; vm_compute; reflexivity.
+Qed.
+
+Lemma c02_no_delimiter_refuted_lemma :
+  exists c m b m', render_ok c /\ fresh m = true /\ msg_encode c m = Ok (b, m') /\ wire_ok c b = false.
+Proof.
+  exists ex_ctx, ex_list_nofirst. eexists. eexists. split; [apply render_default_ok; reflexivity|].
+  split; [vm_compute; reflexivity|]. split; [vm_compute; reflexivity|vm_compute; reflexivity].
+Qed.
+
+Lemma c02_nonvacuous_lemma :
+  render_ok ex_ctx /\ wf_msg ex_ctx ex_list = true /\ fresh ex_list = true /\
+  wire_ok ex_ctx (enc_bytes ex_ctx ex_list) = true.
+Proof. split; [apply render_default_ok; reflexivity|]. repeat split; vm_compute; reflexivity. Qed.
